@@ -120,16 +120,16 @@ func (c *fakeConn) AcceptStream(ctx context.Context) (quic.Stream, error) { retu
 func (c *fakeConn) AcceptUniStream(ctx context.Context) (quic.ReceiveStream, error) {
 	return nil, errNo
 }
-func (c *fakeConn) OpenStream() (quic.Stream, error)                       { return nil, errNo }
-func (c *fakeConn) OpenStreamSync(context.Context) (quic.Stream, error)    { return nil, errNo }
-func (c *fakeConn) OpenUniStream() (quic.SendStream, error)                { return nil, errNo }
+func (c *fakeConn) OpenStream() (quic.Stream, error)                           { return nil, errNo }
+func (c *fakeConn) OpenStreamSync(context.Context) (quic.Stream, error)        { return nil, errNo }
+func (c *fakeConn) OpenUniStream() (quic.SendStream, error)                    { return nil, errNo }
 func (c *fakeConn) OpenUniStreamSync(context.Context) (quic.SendStream, error) { return nil, errNo }
-func (c *fakeConn) LocalAddr() net.Addr                                    { return memAddr("local") }
-func (c *fakeConn) RemoteAddr() net.Addr                                   { return memAddr("remote:1") }
-func (c *fakeConn) CloseWithError(quic.ApplicationErrorCode, string) error { return nil }
-func (c *fakeConn) Context() context.Context                               { return c.ctx }
-func (c *fakeConn) ConnectionState() quic.ConnectionState                  { return quic.ConnectionState{} }
-func (c *fakeConn) SendDatagram([]byte) error                              { return nil }
+func (c *fakeConn) LocalAddr() net.Addr                                        { return memAddr("local") }
+func (c *fakeConn) RemoteAddr() net.Addr                                       { return memAddr("remote:1") }
+func (c *fakeConn) CloseWithError(quic.ApplicationErrorCode, string) error     { return nil }
+func (c *fakeConn) Context() context.Context                                   { return c.ctx }
+func (c *fakeConn) ConnectionState() quic.ConnectionState                      { return quic.ConnectionState{} }
+func (c *fakeConn) SendDatagram([]byte) error                                  { return nil }
 func (c *fakeConn) ReceiveDatagram(ctx context.Context) ([]byte, error) {
 	<-ctx.Done()
 	return nil, ctx.Err()
